@@ -23,6 +23,9 @@ var (
 type Transport struct {
 	wsconn      Conn
 	messageType MessageType
+	// writeMu serialises Write: a message is one writer from open to close, and not every backend
+	// tolerates (or orders) concurrent writers by itself
+	writeMu sync.Mutex
 
 	compressConfig   compress.Config
 	writeWindowBuf   *bytes.Buffer
@@ -92,6 +95,8 @@ func (t *Transport) Read() ([]byte, error) {
 
 // Writeは、１メッセージ分のデータを書き込みます。
 func (t *Transport) Write(bs []byte) error {
+	t.writeMu.Lock()
+	defer t.writeMu.Unlock()
 	wr, err := t.wsconn.Writer(t.ctx, MessageBinary)
 	if err != nil {
 		return fmt.Errorf("get writer: %w", err)
